@@ -27,10 +27,15 @@ OK(e) ==
   \* "followed by exactly one line per instruction in assembly order"
   /\ Len(e.lines) = nh + Len(all) \/ (Len(all) = 0 /\ nh = 0 /\ e.lines = <<"">>)
   \* (extended-instruction names apply to block instructions of functions; ids imported as a known set)
-  /\ LET types == TrackSeq(NoTypes, m.types_global_values, 1)  ng == Len(GlobalInsts(m)) IN
-       \A j \in 1..Len(all) : TokensMatch(LineToksTyped(all[j], m.ext_inst_imports, types, j <= ng), e.tokens[nh + j])
+  /\ LET types == TrackSeq(NoTypes, m.types_global_values, 1)  ng == Len(GlobalInsts(m))  multi == MultiDeclared(m.types_global_values) IN
+       \A j \in 1..Len(all) : TokensMatch(LineToksTyped(all[j], m.ext_inst_imports, types, j <= ng, multi), e.tokens[nh + j])
   \* "Reading the text back with the same vocabulary reconstructs the instruction stream exactly"
-  /\ e.reread_ok /\ Len(e.reread) = Len(all) /\ \A j \in 1..Len(all) : SameModuloNaN(all[j], e.reread[j])
+  \* (an OpConstant whose type id has conflicting declarations has no single "declared type": its literal is not judged)
+  /\ e.reread_ok /\ Len(e.reread) = Len(all)
+  /\ LET multi == MultiDeclared(m.types_global_values) IN
+     \A j \in 1..Len(all) : \/ SameModuloNaN(all[j], e.reread[j])
+                             \/ (all[j].op = 43 /\ all[j].rt # <<>> /\ all[j].rt[1] \in multi /\ e.reread[j].op = 43
+                                 /\ e.reread[j].rt = all[j].rt /\ e.reread[j].rid = all[j].rid)
 
 \* "loadpanic": the loader panicked before there was a module to print (code 4: a panic, but not one of disassemble)
 Code(e) == IF e.st = "loadpanic" THEN 4 ELSE IF e.st = "panic" THEN 5 ELSE IF OK(e) THEN 0 ELSE 1
